@@ -79,6 +79,12 @@ def catalogue() -> List[Tmpl]:
         T.append(Tmpl(f"cap_d{depth}", _nest(depth, "bool[{n:c}] a = 1"), lambda v: CAP(v["c"])))
     T.append(Tmpl("cap_alias", "proto p\ntype A = byte[{n:c}]\n", lambda v: CAP(v["c"])))
     T.append(Tmpl("cap_hex_const", "proto p\nconst N = {x:c}\nmessage M {\n    bool[N] a = 1\n}\n", lambda v: CAP(v["c"]), err_lines=(4,)))
+    # capacities through constant expressions that mix operator levels (precedence and associativity decide the value)
+    T.append(Tmpl("cap_expr_add_mul", "proto p\nconst N = {n:a} + {n:b} * {n:c}\nmessage M {\n    bool[N] a = 1\n}\n", lambda v: CAP(v["a"] + v["b"] * v["c"]), err_lines=(2, 4)))
+    T.append(Tmpl("cap_expr_mul_add", "proto p\nconst N = {n:a} * {n:b} + {n:c}\nmessage M {\n    bool[N] a = 1\n}\n", lambda v: CAP(v["a"] * v["b"] + v["c"]), err_lines=(2, 4)))
+    T.append(Tmpl("cap_expr_sub_mul", "proto p\nconst N = {n:a} - {n:b} * 2\nmessage M {\n    bool[N] a = 1\n}\n", lambda v: CAP(v["a"] - v["b"] * 2), err_lines=(2, 4)))
+    T.append(Tmpl("cap_expr_sub_sub", "proto p\nconst N = {n:a} - {n:b} - {n:c}\nmessage M {\n    bool[N] a = 1\n}\n", lambda v: CAP(v["a"] - v["b"] - v["c"]), err_lines=(2, 4)))
+    T.append(Tmpl("cap_expr_paren", "proto p\nconst N = ({n:a} + {n:b}) * {n:c}\nmessage M {\n    bool[N] a = 1\n}\n", lambda v: CAP((v["a"] + v["b"]) * v["c"]), err_lines=(2, 4)))
     T.append(Tmpl("cap_width_size", _nest(0, "{U:w}[{n:c}] a = 1"), lambda v: z3.And(W(v["w"]), CAP(v["c"]), v["w"] * v["c"] <= 65535), err_lines=(3, 4)))
     T.append(Tmpl("cap_width_size_ext", _nest(0, "{I:w}[{n:c}]' a = 1"), lambda v: z3.And(W(v["w"]), CAP(v["c"]), v["w"] * v["c"] + 16 <= 65535), err_lines=(3, 4)))
     T.append(Tmpl("cap_msg_el", "proto p\nmessage E {\n    {U:w} x = 1\n    bool y = 2\n}\nmessage M' {\n    E[{n:c}]' a = 1\n}\n",
